@@ -88,9 +88,16 @@ class BundleContainer(object):
             pri.create_ts.getfieldval('seqno')
         ]
         if pri.bundle_flags & PrimaryBlock.Flag.IS_FRAGMENT:
+            # a fragment is identified by its offset and its own length,
+            # fragments made on different paths may start at the same offset
+            frag_len = None
+            for blk in self.bundle.getfieldval('blocks'):
+                if blk.getfieldval('type_code') == Bundle.BLOCK_TYPE_PAYLOAD:
+                    btsd = blk.getfieldval('btsd')
+                    frag_len = len(btsd) if btsd is not None else None
             ident += [
                 pri.fragment_offset,
-                pri.total_app_data_len,
+                frag_len,
             ]
         return tuple(ident)
 
